@@ -10,7 +10,7 @@ d=sys.argv[1]; files={}
 for f in os.listdir(d):
     if f.endswith('.go') and not f.endswith('_test.go'):
         n=open(os.path.join(d,f)).read()
-        if n!=open('/repo/'+f).read(): files['/repo/'+f]=n
+        if not os.path.exists('/repo/'+f) or n!=open('/repo/'+f).read(): files['/repo/'+f]=n
 json.dump(files,open(d+'/ov.json','w'))
 PY
 ${FLYTSA_BIN:-/verif/bin/flytsa} check -prop "$2" -overlay $D/ov.json -outdir $D/out 2>&1 | grep -v "^  ok" | cut -c1-${3:-600} | head -${4:-40}
